@@ -57,11 +57,12 @@ _KEY_NAMES = None
 class RustMachine:
     impl = "rs"
 
-    def __init__(self, vh, name="m"):
+    def __init__(self, vh, name="m", kb_irq=True):
         self.vh = vh
         self.name = name
+        self.kb_irq = kb_irq          # False: the non-default "keyboard interrupts disabled" configuration of the runtime
         vh.call("rt.new", name=name, cfg={"regs": {"PC": MAIN, "S": STACK, "U": STACK - 0x100}, "rom_overlays": [[0xFFFFA, VECTOR_BYTES]],
-                                          "loads": [[VEC, [0x00]]], "timer": {"enabled": False, "pm": 0, "ps": 0}})
+                                          "loads": [[VEC, [0x00]]], "timer": {"enabled": False, "pm": 0, "ps": 0, "kb_irq_enabled": kb_irq}})
 
     def pc(self):
         return self.vh.call("rt.obs", name=self.name)["pc"]
@@ -78,7 +79,7 @@ class RustMachine:
         elif k == "OnKeyUp":
             self.vh.call("rt.release_on", name=self.name)
         elif k == "TimerCfg":
-            self.vh.call("rt.configure", name=self.name, cfg={"timer": {"enabled": True, "pm": ev["pm"], "ps": ev["ps"]}})
+            self.vh.call("rt.configure", name=self.name, cfg={"timer": {"enabled": True, "pm": ev["pm"], "ps": ev["ps"], "kb_irq_enabled": self.kb_irq}})
         elif k == "Key":
             self.vh.call("rt.key", name=self.name, code=ev["code"], press=bool(ev["press"]))
 
@@ -174,7 +175,7 @@ class PyMachine:
 
 def run_script(m, script: List[Dict[str, Any]], tid: int) -> List[Dict[str, Any]]:
     """script items: {"ev":"Step","ins":{...}} | {"ev":"Timer","s":0|1} | {"ev":"OnKey"} | {"ev":"OnKeyUp"} | {"ev":"TimerCfg",...}"""
-    out = [{"tid": tid, "ev": "Init", "impl": m.impl}]
+    out = [{"tid": tid, "ev": "Init", "impl": m.impl, "kbirq": int(getattr(m, "kb_irq", True))}]
     pending_env: List[Dict[str, Any]] = []
     for a in script:
         if a["ev"] != "Step":
